@@ -152,10 +152,26 @@ class Device:
         v = self.ui_version if self.mode in (2, 4) else self.version
         return D(CLA, 1 if self.onboarded else 0, *v)
 
+    def echo_answer(self, cmd, data):
+        """the echo, or one of the ways an echo can be wrong: another payload (True / "payload"), the right
+        payload under a wrong class byte or a wrong command byte, a byte short, a byte long"""
+        k = self.echo_bad
+        if not k:
+            return D(CLA, cmd, data)
+        if k == "class":
+            return D(0x00, cmd, data)
+        if k == "cmd":
+            return D(CLA, (cmd + 1) & 0xFF, data)
+        if k == "short":
+            return D(CLA, cmd, bytes(data[:-1]))
+        if k == "long":
+            return D(CLA, cmd, bytes(data) + b"\x00")
+        return D(CLA, cmd, bytes(data[:-1]) + b"\x00")
+
     # -- bootloader / UI
     def cmd_02(self, data):
         if self.mode == 2:       # ECHO
-            return D(CLA, 0x02, data if not self.echo_bad else bytes(data[:-1]) + b"\x00")
+            return self.echo_answer(0x02, data)
         return self.sign(data)
 
     def cmd_45(self, data):      # RETRIES
@@ -226,7 +242,7 @@ class Device:
 
     # -- SGX variants
     def cmd_a4(self, data):
-        return D(CLA, 0xA4, data if not self.echo_bad else bytes(data[:-1]) + b"\x00")
+        return self.echo_answer(0xA4, data)
 
     def cmd_a2(self, data):
         return D(CLA, 0xA2, self.retries)
